@@ -32,6 +32,7 @@ type c12Step struct {
 type c12Sched struct {
 	InitGap int64       `json:"gap_after_creation_ns"`
 	Workers [][]c12Step `json:"workers"`
+	Burst   bool        `json:"synchronised_bursts,omitempty"` // every Current() is accompanied by three more calls from goroutines of their own
 }
 
 type c12Key struct {
@@ -76,6 +77,7 @@ func c12Gen(rng *rand.Rand) c12Sched {
 		for w := 0; w < nw; w++ {
 			s.Workers = append(s.Workers, steps)
 		}
+		s.Burst = true
 		return s
 	}
 	for w := 0; w < nw; w++ {
@@ -201,7 +203,19 @@ func c12RunOne(s c12Sched) (rprobs []c12Problem, rst c12Stats, bubble string) {
 					before := maxSeen.Load()
 					switch stp.Op {
 					case 0:
+						var bw sync.WaitGroup
+						if s.Burst { // more callers at the same instant; their keys are observed like any other
+							for x := 0; x < 3; x++ {
+								bw.Add(1)
+								go func() {
+									defer bw.Done()
+									kx := p.Current()
+									observe(kx, t, "Current")
+								}()
+							}
+						}
 						k := p.Current()
+						bw.Wait()
 						if t2 := time.Now(); !t2.Equal(t) {
 							report("harness|virtual time advanced during a call", nil)
 						}
